@@ -197,6 +197,29 @@ mod verif_driver_assets {
         println!("VERIF-CASES fn=from n={n}");
     }
 
+    // C14 / C02: arithmetic of the asset algebra on extreme amounts must not panic (and must not wrap)
+    #[test]
+    fn extreme_amounts_do_not_panic() {
+        let mut n = 0;
+        let prev = std::panic::take_hook();
+        std::panic::set_hook(Box::new(|_| {}));
+        for (what, x, y) in [("neg", i128::MIN, 0i128), ("add", i128::MAX, 1), ("add", i128::MIN, -1), ("sub", i128::MIN, 1), ("sub", i128::MAX, -1), ("neg", i128::MAX, 0), ("add", 1, 2)] {
+            n += 1;
+            let r = catch_unwind(AssertUnwindSafe(|| match what {
+                "neg" => -CanonicalAssets::from_naked_amount(x),
+                "add" => CanonicalAssets::from_naked_amount(x) + CanonicalAssets::from_naked_amount(y),
+                _ => CanonicalAssets::from_naked_amount(x) - CanonicalAssets::from_naked_amount(y),
+            }));
+            if r.is_err() {
+                witness(&format!("c14_assets/{what}#arithmetic-overflow"), what, format!("{what}({x}, {y}) class=amount-overflow"), "panic (arithmetic overflow)".into(), "no panic: exact result or a failure the caller can handle");
+            }
+        }
+        std::panic::set_hook(prev);
+        println!("VERIF-CASES fn=neg n={n}");
+        println!("VERIF-CASES fn=add n={n}");
+        println!("VERIF-CASES fn=sub n={n}");
+    }
+
     #[test]
     fn overflow_is_not_a_wrapped_value() {
         // boundary amounts for the "never wrapped" clause (C02): the operation may panic-free fail or
